@@ -121,7 +121,11 @@ class ANMLGrammar:
         self.timed_assignment_or_goal: List[ParseResults] = []
 
         # Base Expression elements
-        identifier = Word(alphas + "_", alphanums + "_")
+        # the prefix operator `not` is not an identifier: otherwise `(not (a == b))` after
+        # `when` is read as the optional interval "(" not(...) ")" of a fluent named not
+        identifier = Word(alphas + "_", alphanums + "_").add_condition(
+            lambda toks: toks[0] != TK_NOT
+        )
 
         # Negative numbers are defined with the unary minus operator
         integer = Word(nums)
